@@ -20,6 +20,7 @@ NA = {
 }
 
 CHECKS = {
+    "C04": dict(technique="two-mode exception-escape (effect) analysis over the call graph with a partial-operation ledger and guard facts; raise/append pairing; mode-independence check", text="An effect analysis, sound up to the listed assumptions, for \"no other exception type escapes\" and the shape of collected errors: all paths of all functions reachable from the three validation entry points, in both modes.", note="assumed-total externals are listed in the evidence; termination of the choice loop is a paper argument; RecursionError/MemoryError outside the claim", ref="DESIGN.md section 3, C04"),
     "C10": dict(
         technique="exhaustive static enumeration of the shipped tables (AST constant folding of node_mappings/names, "
                   "rules.json as data), grammar parse of every children spec, least-fixpoint productivity",
